@@ -1617,6 +1617,60 @@ func (m *Model) ruleEVTCONV(r *Results) {
 			r.bad(rule, m.declName(fn)+" / FeedEvent."+fname, m.pos(fn.Pos()), "the converter never sets FeedEvent.%s", fname)
 		}
 	}
+	// Live and backfilled events are labelled with the same identifier of their collection: every
+	// call of the converter takes its collection-id argument from the same source (the public-id
+	// accessor, not - at one site - the row id of the collections table, which differs by one).
+	{
+		idSource := func(v ssa.Value) string {
+			for i := 0; i < 6; i++ {
+				v = stripConv(v)
+				if cv, ok := v.(*ssa.Convert); ok {
+					v = cv.X
+					continue
+				}
+				break
+			}
+			if call, ok := v.(*ssa.Call); ok {
+				if g := call.Common().StaticCallee(); g != nil {
+					return "the result of " + g.Name() + "()"
+				}
+				if call.Common().IsInvoke() {
+					return "the result of " + call.Common().Method.Name() + "()"
+				}
+			}
+			if _, f, ok := fieldLoad(v); ok {
+				return "the field " + f.Name()
+			}
+			if p, ok := v.(*ssa.Parameter); ok {
+				return "the parameter " + p.Name()
+			}
+			return "a computed value"
+		}
+		sources := map[string]string{}
+		for _, g := range m.Funcs {
+			m.eachCall(g, func(c ssa.CallInstruction) {
+				if c.Common().StaticCallee() != fn {
+					return
+				}
+				for i, arg := range c.Common().Args {
+					if i == 0 {
+						continue
+					}
+					if b, ok := arg.Type().Underlying().(*types.Basic); ok && b.Info()&types.IsInteger != 0 {
+						sources[idSource(arg)] = m.instrPos(c)
+					}
+				}
+			})
+		}
+		if len(sources) > 0 {
+			var list []string
+			for k, v := range sources {
+				list = append(list, k+" at "+v)
+			}
+			sort.Strings(list)
+			r.check(len(sources) == 1, rule, "<event-converter> / every caller labels the event with the same collection identifier", m.pos(fn.Pos()), "all calls of the converter take the collection id from "+strings.Join(list, ", "), "the calls of the converter take the collection id from different sources ("+strings.Join(list, "; ")+"): live and backfilled events of one collection then carry different collection ids, and a consumer files one of them under a neighbouring collection")
+		}
+	}
 }
 
 // ---------------------------------------------------------------- R-ERRPROP
